@@ -1,12 +1,12 @@
 /-
-C19 — property theorems.  (Helper lemmas live in `Lemmas.lean`, `Fifo.lean`, `Take.lean`, `Rate.lean`, `Stall.lean`, `Live.lean`.)
+C19 — property theorems.  (Helper lemmas live in `Lemmas.lean`, `Fifo.lean`, `Take.lean`, `Rate.lean`, `Stall.lean`, `Live.lean`, `Fresh.lean`.)
 
 Vocabulary: `run s ops` = final state and event trace of the operations `ops` (any interleaving
 of queueMsg / sendMsg / takeMsg / die / reset / clock ticks / MOTD end / PONG / echo-message
 (un)acknowledged / configuration changes — the filters are part of the configuration) from an
 arbitrary state `s`; `life c now ops` = the same from a freshly constructed `Irc`.
 -/
-import LimnoriaModel.C19.Live
+import LimnoriaModel.C19.Fresh
 namespace C19
 open Py List
 
@@ -384,6 +384,23 @@ theorem conservation_partial (c : Cfg) (now : Nat) (ops : List Op)
   rw [hno, append_nil] at this
   exact this
 
+/-- **Exactly the re-used objects are at risk.**  If every `queueMsg`/`sendMsg` is given an
+object that was not handed to the bot before (`OpsFresh`), and every outFilter returns the object
+it got or one it has just built (`FilterOk`) — under every configuration installed along the
+way — then no message is ever lost: the loss term of `conservation` is empty … -/
+theorem no_loss_fresh_objects (c : Cfg) (hc : ∀ f ∈ c.filters, FilterOk f) (now : Nat) (ops : List Op)
+    (ho : OpsFresh [] ops) : lostOf (life c now ops).2 = [] :=
+  life_fresh c hc now ops ho
+
+/-- … and the conservation law holds without it: every accepted message is handed to the driver,
+dropped by a filter, discarded by `reset()` or still waiting — exactly once. -/
+theorem conservation_fresh_objects (c : Cfg) (hc : ∀ f ∈ c.filters, FilterOk f) (now : Nat)
+    (ops : List Op) (ho : OpsFresh [] ops) :
+    (accOf (life c now ops).2).Perm
+      (tookOf (life c now ops).2 ++ dropOf (life c now ops).2 ++
+        discOf (life c now ops).2 ++ (life c now ops).1.pending) :=
+  conservation_partial c now ops (no_loss_fresh_objects c hc now ops ho)
+
 /-! ## counter-example and non-vacuity -/
 
 def exCfg : Cfg :=
@@ -443,6 +460,22 @@ example : ∃ a b d, (life busyCfg 1000 busyOps).2 =
   refine ⟨(life busyCfg 1000 busyOps).2.take 19, [Ev.rotated (joinB 4) 1012],
     (life busyCfg 1000 busyOps).2.drop 22, by decide, ?_⟩
   intro e he ms; simp at he; subst he; simp
+-- `no_loss_fresh_objects`: the busy run hands every object over once (the refused duplicate of
+-- `privmsg 0` aside, which is why it uses fresh numbers here) and its filter is well behaved
+def freshOps : List Op :=
+  [.connected, .take, .queue (privmsg 0), .queue (joinMsg 1), .send (whoMsg 5), .queue (privmsg 8), .die,
+   .tick 2, .take, .tick 2, .take, .tick 4, .take, .take]
+example : OpsFresh [] freshOps ∧ (tookOf (life busyCfg 1000 freshOps).2).length = 3 := by
+  refine ⟨⟨0, rfl, by simp, 1, rfl, by simp, 5, rfl, by simp, 8, rfl, by simp, trivial⟩, by decide⟩
+example : ∀ f ∈ busyCfg.filters, FilterOk f := by
+  intro f hf
+  simp [busyCfg] at hf
+  subst hf
+  intro n m m' h
+  simp only [dropQuit] at h
+  split at h
+  · cases h
+  · injection h with h; subst h; exact Or.inl rfl
 -- `quit_completes` / `no_stall`: the state right after `die()` in the run above is a quitting bot
 -- with seven messages waiting, and the clock then past every limit
 example : let s := (run (init busyCfg 1000).1 (busyOps.take 11)).1
